@@ -33,6 +33,12 @@ if len(sys.argv) > 3 and sys.argv[3] == "state":
                "  objects (tries, iterators, fogs, caches, proofs) built over the same database or sharing a sub-object, a second\n"
                "  call that behaves differently from the first, clean-up that is skipped on one exit path and only matters for the\n"
                "  *next* operation.\n")
+if len(sys.argv) > 3 and sys.argv[3] == "helpers":
+    VARIANT = ("* Put the change in a *low-level helper* rather than in the body of the main classes: `trie/utils/*.py` (nibble, node,\n"
+               "  binary-keypath and db helpers), `trie/validation.py`, `trie/typing.py`, `trie/constants.py`, `trie/exceptions.py`, the\n"
+               "  module-level functions of `trie/branches.py` / `trie/smt.py`, `TrieFrontierCache` in `trie/fog.py`, or a small private\n"
+               "  helper method that several public operations share. The slip should look harmless where it is made and break the\n"
+               "  property only through one of the callers, on inputs the helper's own unit tests do not reach.\n")
 prop = [json.loads(l) for l in open(os.path.join(HERE, "properties.jsonl")) if json.loads(l)["id"] == pid][0]
 wt = "/tmp/wt/%s%s" % (pid, suffix)
 os.makedirs("/tmp/wt", exist_ok=True)
@@ -53,6 +59,7 @@ They must be at different code sites / exploit different mechanisms.
 
 Rules
 * Work only inside `%(wt)s`. Never read or write `/repo` or `/verif`. There is no network.
+* Never use `pkill` / `killall` (other jobs run on this machine); kill only process ids you started.
 * Run python as `/venv/bin/python` from this directory (then `import trie` picks up this worktree; check with
   `/venv/bin/python -c "import trie; print(trie.__file__)"`).
 * Existing tests: `/venv/bin/python -m pytest -q -p no:cacheprovider --timeout=900 --continue-on-collection-errors tests`
